@@ -200,11 +200,12 @@ type vcState struct {
 }
 
 type vcViewObs struct {
-	Held []string `json:"held"`
-	Ans  string   `json:"ans"`
-	Errs []string `json:"errs,omitempty"`
-	Tags string   `json:"tags"` // the view's own copy of the tag details (matches / uncertain bits per tag), read after ALL batteries of the step
-	Pre  bool     `json:"pre,omitempty"`
+	Held  []string `json:"held"`
+	Ans   string   `json:"ans"`
+	Errs  []string `json:"errs,omitempty"`
+	Paged []string `json:"paged,omitempty"` // sorted searches with a limit, page by page: "key/limit=id:cbytes,id:cbytes|next page|..."
+	Tags  string   `json:"tags"`            // the view's own copy of the tag details (matches / uncertain bits per tag), read after ALL batteries of the step
+	Pre   bool     `json:"pre,omitempty"`
 }
 
 type vcStep struct {
@@ -324,29 +325,30 @@ func vcTagSnap(v *View) string {
 }
 
 type vcRun struct {
-	t        *testing.T
-	mgr      *Manager
-	sc       *vcScenario
-	dir      string
-	pcapDir  string
-	idxDir   string
-	seen     map[string]bool
-	views    []*vcView
-	queries  []*query.Query
-	qtext    []string
-	nextCap  int
-	nextTag  int
-	nextDef  int
-	lastSt   *vcState
-	mergeIn  string // last file of the index list when the live merge job was launched (certainly one of its inputs)
-	mergeOn  bool
-	hookSeen int    // webhook calls already attributed to an action
-	jobTag   string // tag the live tagging job works on ("" none, "?" not identifiable: several tags were uncertain at launch)
-	tagLive  bool
-	logs     *vcLogBuf
-	evMu     sync.Mutex
-	events   int
-	evPcaps  int
+	t         *testing.T
+	mgr       *Manager
+	sc        *vcScenario
+	dir       string
+	pcapDir   string
+	idxDir    string
+	seen      map[string]bool
+	views     []*vcView
+	queries   []*query.Query
+	qtext     []string
+	nextCap   int
+	nextTag   int
+	nextDef   int
+	lastSt    *vcState
+	mergeIn   string // last file of the index list when the live merge job was launched (certainly one of its inputs)
+	mergeOn   bool
+	hookSeen  int    // webhook calls already attributed to an action
+	pagedTurn int    // rotates the sort keys of the paged searches
+	jobTag    string // tag the live tagging job works on ("" none, "?" not identifiable: several tags were uncertain at launch)
+	tagLive   bool
+	logs      *vcLogBuf
+	evMu      sync.Mutex
+	events    int
+	evPcaps   int
 }
 
 var vcT0 = time.Date(2020, 1, 1, 12, 0, 0, 0, time.UTC)
@@ -624,6 +626,35 @@ func (r *vcRun) batteryOn(vv *vcView, v *View) vcViewObs {
 			sb.WriteString("+more")
 		}
 	}
+	// Searches with a page size and ONE sort key over all (possibly unmerged) index files of the view, all pages: two keys
+	// per battery, rotating (not part of the stability string; compared with AllStreams by the check).
+	r.pagedTurn++
+	for t := 0; t < 2; t++ {
+		key := vcSortKeys[(r.pagedTurn*2+t)%len(vcSortKeys)]
+		q, err := query.Parse("sport:4321 sort:" + key)
+		if err != nil {
+			panic(err)
+		}
+		for _, limit := range []uint{1, 2, 3} {
+			var pb strings.Builder
+			fmt.Fprintf(&pb, "%s/%d=", key, limit)
+			for page := uint(0); page < 12; page++ {
+				more, _, _, err := v.SearchStreams(ctx, q, func(sc StreamContext) error {
+					fmt.Fprintf(&pb, "%d:%d,", sc.Stream().ID(), sc.Stream().ClientBytes)
+					return nil
+				}, append([]StreamsOption{Limit(limit, page)}, opts...)...)
+				if err != nil {
+					fail(fmt.Sprintf("SearchStreams(sort:%s limit %d page %d)", key, limit, page), err)
+					break
+				}
+				if !more {
+					break
+				}
+				pb.WriteString("|")
+			}
+			obs.Paged = append(obs.Paged, pb.String())
+		}
+	}
 	for _, idx := range v.indexes {
 		obs.Held = append(obs.Held, vcBase(idx.Filename()))
 	}
@@ -764,6 +795,8 @@ func vcArgStr(raw []json.RawMessage, i int) string {
 	return v
 }
 
+var vcSortKeys = []string{"id", "-id", "ftime", "-ftime", "ltime", "-ltime", "cbytes", "-cbytes", "sbytes", "cport", "-cport"}
+
 var vcKinds = []string{"import", "merge", "tag", "convert"}
 
 // apply resolves one script entry against the current situation and performs it.
@@ -846,11 +879,50 @@ func (r *vcRun) apply(op []json.RawMessage) []interface{} {
 		}
 		r.nextTag++
 		return []interface{}{"tagadd", name}
-	case "tagdel", "tagupd":
-		if r.lastSt == nil || len(r.lastSt.TagN) == 0 || (r.lastSt.Tag && r.jobTag == "?") {
+	case "markadd", "markdel":
+		// edits of the mark tag mark/m: the stream id is taken among the existing streams, so Set/Unset stay inside the
+		// words the bitmask already has (the case in which a shared bitmask would change under an open view)
+		if r.lastSt == nil || r.lastSt.Next == 0 {
 			return nil
 		}
-		name := r.lastSt.TagN[vcArgInt(op, 1)%len(r.lastSt.TagN)]
+		id := uint64(vcArgInt(op, 1)) % r.lastSt.Next
+		has := false
+		for _, n := range r.lastSt.TagN {
+			if n == "mark/m" {
+				has = true
+			}
+		}
+		if !has {
+			if vcArgStr(op, 0) == "markdel" {
+				return nil
+			}
+			if err := r.mgr.AddTag("mark/m", "green", fmt.Sprintf("id:%d", id)); err != nil {
+				panic(err)
+			}
+			return []interface{}{"marknew", id}
+		}
+		o := UpdateTagOperationMarkAddStream([]uint64{id})
+		if vcArgStr(op, 0) == "markdel" {
+			o = UpdateTagOperationMarkDelStream([]uint64{id})
+		}
+		if err := r.mgr.UpdateTag("mark/m", o); err != nil {
+			panic(err)
+		}
+		return []interface{}{"markedit", vcArgStr(op, 0), id}
+	case "tagdel", "tagupd":
+		if r.lastSt == nil || (r.lastSt.Tag && r.jobTag == "?") {
+			return nil
+		}
+		cands := []string{}
+		for _, n := range r.lastSt.TagN {
+			if !strings.HasPrefix(n, "mark/") {
+				cands = append(cands, n)
+			}
+		}
+		if len(cands) == 0 {
+			return nil
+		}
+		name := cands[vcArgInt(op, 1)%len(cands)]
 		wasunc := false
 		for _, n := range r.lastSt.UncN {
 			if n == name {
